@@ -92,6 +92,10 @@ def run(rep, tier, driver):
                 jobs.append(("%s%d%s%d%s" % (sugar, p1, fg, p2, rng.choice(["Ac", "Me", "S"])), {}, "late-position-pair"))
     for s in ["Gal(b1-4)Glc2PCho8Ac", "Glc2PCho8Ac(a1-4)Glc", "Glc3Cho9Me", "Xyl2PCho7Ac", "Glc6PCho", "Neu5Ac9Ac"]:
         jobs.append((s, {}, "late-position-pair"))
+    # bicyclic residues (x,y-anhydro: two ring-closure labels in one residue) as children, parents and inner residues
+    from props.c01 import bicyclic_cases
+    for s_, _tag in bicyclic_cases(tier):
+        jobs.append((s_, {}, "bicyclic"))
     # nesting depth / width stress
     for d in ([10, 40, 98, 99, 100, 130] if tier == "quick" else [10, 40, 60, 97, 98, 99, 100, 101, 130, 200]):
         jobs.append(("Glc(a1-4)" * d + "Glc", {}, "deep-chain"))
